@@ -226,10 +226,10 @@ func main() {
 		coqRate int // 1/coqRate of the larger programs
 	}
 	plans := []plan{
-		{famCore, 5, 3, 12},
+		{famCore, 5, 3, 25},
 		{famRich, 3, 2, 8},
 		{famOpt, 3, 2, 10},
-		{famFun, 4, 3, 10},
+		{famFun, 4, 2, 12},
 	}
 	if thorough {
 		plans = []plan{
@@ -251,7 +251,7 @@ func main() {
 	}
 
 	// 3. random larger programs: mostly linear by construction, half of them with an injected edit
-	nrand := 1500
+	nrand := 1100
 	if thorough {
 		nrand = 30000
 	}
